@@ -20,6 +20,16 @@ CHECKS = {
         text="Endpoints drawn from a model are rendered in every option permutation (<=5 options) and 48 spacing/flag-form styles, parsed by the real Parse and compared field by field (defaults, weight normalisation, key); the registry route is compared with the model and with the direct route's cache key; address lists (incl. trailing ':') go through the real NewServantProxy; every string of length 0..4 over a 9-symbol alphabet plus seeded random strings must not panic.",
         note="Trusts the model's statement of defaults (timeout 3000, weight -1, weight normalisation). Numeric option values are plain decimals; IPv6 literals are excluded from ':'-separated lists.",
         design="DESIGN.md §4 C18"),
+    "C19": dict(
+        technique="runtime monitor: logical-clock stamps and gauge on gate-controlled jobs of the real pool, race detector (-race) on gpool state",
+        text="Jobs on the real gpool.Pool stamp start/end on a logical clock and keep a running gauge; oracles: per-job execution count, gauge <= workers at every start, workers+1+queue gated submissions complete without a gate opening, Release returns for an idle pool / only after running jobs ended / nothing starts afterwards, no goroutine left after Release; 48 configurations x 4 scenarios; race reports touching gpool are violations.",
+        note="Only the interleavings the scheduler and the gates produced. 'Stops all workers' is observed through runtime.NumGoroutine at quiescence. Blocking steps are bounded by a 30 s watchdog.",
+        design="DESIGN.md §4 C19"),
+    "C20": dict(
+        technique="runtime monitor: recording LogWriter + token join over forced (yield-point hook) and natural interleavings, child processes for aged-process flush and panic exit, race detector on rogger",
+        text="A recording writer observes what the real flusher hands over; entries logged before the flush request must be written exactly once, undivided, per-goroutine in order when FlushLogger returns. The losing interleaving named in the property is forced deterministically through the verif yield point between the flusher's two selects and also reached naturally; queue occupancies 0/1/100/9999 and over-capacity bursts are produced with a gated writer; child processes (no hook involved) decide the flush of a >1 s old process and the panic-triggered exit for four panic value kinds.",
+        note="In-process trials re-arm the one-shot flush through the verif hook VerifResetFlush, which re-creates the flush contexts; properties of their initial construction are therefore decided by the child-process trials only. A flush taking >= the 1 s flush timeout is inconclusive.",
+        design="DESIGN.md §4 C20"),
 }
 
 NOT_BUILT_REASON = "check not built yet in this session (runtime-monitoring design exists in DESIGN.md §4; machinery in progress) — not claimed until its monitor runs silent on the unchanged tree"
